@@ -498,13 +498,13 @@ stay allowed ("have always been accepted inside `sh()`") -/
 def SH_PARAMS : ValidationParams :=
   { Ctx.CONSENSUS .legacy with allowDupIf := true, allowOrI := true }
 
-/-- `Wsh::new` / `Sh::new` / `Bare::new` after `top_level_checks` (fix f6816493) -/
+/-- `Wsh::new` / `Sh::new` / `Bare::new` after `top_level_checks` (fixes f6816493, d43c12c1) -/
 def wrapperValidate (env : KeyEnv) (K : KeyInfo) (ctx : Ctx) (ms : Ms) : Bool :=
   match ctx with
   | .segwitv0 => isOk (validate env K .segwitv0 (Ctx.CONSENSUS .segwitv0) ms)
   | .legacy => isOk (validate env K .legacy SH_PARAMS ms)
   | .tap => isOk (validate env K .tap (Ctx.CONSENSUS .tap) ms)   -- `Tr::new` on a one-leaf tree
-  | .bare => true
+  | .bare => isOk (validate env K .bare (Ctx.CONSENSUS .bare) ms)   -- fix d43c12c1
 
 def accepts (env : KeyEnv) (K : KeyInfo) (ctx : Ctx) (e : Entry) (ms : Ms) : Bool :=
   constructed env K ctx ms &&
@@ -520,6 +520,59 @@ def accepts (env : KeyEnv) (K : KeyInfo) (ctx : Ctx) (e : Entry) (ms : Ms) : Boo
     | _ => topLevelChecks K ctx ms && wrapperValidate env K ctx ms   -- `from_tree` = `Self::new`
   | .trFromStr => isOk (validate env K ctx ctx.CONSENSUS ms)
   | .trNew => isOk (validate env K ctx ctx.CONSENSUS ms)   -- fix 2d0df974 (ctx = tap)
+
+/-! ## the API routes that bypass `from_consensus` / `from_ast`
+
+* `RelLockTime::ZERO` (also `from_height_unchecked(0)`) is a public value with `n = 0`, so
+  `Terminal::Older(0)` exists although `RelLockTime::from_consensus(0)` is refused; since fix
+  abe9c44e `from_ast` refuses it, but `Miniscript::older(RelLockTime::ZERO)` still builds it;
+* `Miniscript::{pk, pkh, pk_k, pk_h, expr_raw_pkh, after, older, sha256, …, multi, sortedmulti,
+  multi_a, sortedmulti_a}` and `TRUE`/`FALSE` build a typed node WITHOUT `check_global_validity`.
+-/
+
+/-- the node's `Terminal` can be built through the public API (not only through
+`*::from_consensus`): `older(0)` included -/
+def termNodeOkApi : Ms → Bool
+  | .older n => decide (n < 0x80000000)
+  | m => termNodeOk m
+
+/-- nodes for which a public constructor exists that skips `from_ast` -/
+def isCtorNode : Ms → Bool
+  | .tru | .fls | .pkK _ | .pkH _ | .rawPkH _ | .after _ | .older _ | .hash _ _
+  | .multi _ _ | .sortedMulti _ _ | .multiA _ _ | .sortedMultiA _ _ => true
+  | .check (.pkK _) | .check (.pkH _) => true      -- `Miniscript::pk`, `Miniscript::pkh`
+  | _ => false
+
+/-- a `Miniscript<_, ctx>` with this AST can be built through the public API; `ctor = true`:
+every node that has an unchecked constructor is built with it, `false`: `from_ast` everywhere -/
+def constructedApi (ctor : Bool) (env : KeyEnv) (K : KeyInfo) (ctx : Ctx) (ms : Ms) : Bool :=
+  ms.preorder.all fun m =>
+    -- a node built by an unchecked constructor only has to EXIST (`older(0)` does, as
+    -- `Miniscript::older(RelLockTime::ZERO)`); a node built by `from_ast` is refused when it is
+    -- `older(0)` (fix abe9c44e), otherwise checked as always
+    if ctor && isCtorNode m then termNodeOkApi m
+    else termNodeOk m && (typeOf m).isSome
+      && decide ((extOf env ctx m).treeHeight ≤ MAX_RECURSION_DEPTH)
+      && checkGlobalValidity ctx K (extOf env ctx m).pkCost m
+
+/-- what an entry point does AFTER the miniscript exists (the second factor of `accepts`) -/
+def acceptsTail (env : KeyEnv) (K : KeyInfo) (ctx : Ctx) (e : Entry) (ms : Ms) : Bool :=
+  match e with
+  | .fromAst => true
+  | .msSane => isOk (validate env K ctx ctx.SANE ms)
+  | .msConsensus => isOk (validate env K ctx ctx.CONSENSUS ms)
+  | .msInsane => isOk (validate env K ctx ctx.INSANE ms)
+  | .wrapper => topLevelChecks K ctx ms && wrapperValidate env K ctx ms
+  | .descFromStr =>
+    match ctx with
+    | .tap => isOk (validate env K ctx ctx.CONSENSUS ms) && isOk (validate env K ctx ctx.SANE ms)
+    | _ => topLevelChecks K ctx ms && wrapperValidate env K ctx ms
+  | .trFromStr => isOk (validate env K ctx ctx.CONSENSUS ms)
+  | .trNew => isOk (validate env K ctx ctx.CONSENSUS ms)
+
+/-- an entry point fed with a miniscript built through the API routes above -/
+def acceptsApi (ctor : Bool) (env : KeyEnv) (K : KeyInfo) (ctx : Ctx) (e : Entry) (ms : Ms) : Bool :=
+  constructedApi ctor env K ctx ms && (typeOf ms).isSome && acceptsTail env K ctx e ms
 
 /-- `Wsh::new_sortedmulti` / `Sh::new_sortedmulti` / `Sh::new_wsh_sortedmulti` (fix a3413640):
 `Threshold<Pk, 20>` must exist, then `from_ast(Terminal::SortedMulti)` and `Self::new` -/
